@@ -141,6 +141,9 @@ class ShapeEq:
             c = (tx + s + 3, tx * F(1, 3) + s * F(1, 2) + 3)
             th = Primitive.polygon([(c[0] - e, c[1] - e), (c[0] - e, c[1] + e), (c[0] + e, c[1] + e), (c[0] + e, c[1] - e)])
             Y = ConnectedShape([geom.poly("big", tx + s, tx * F(1, 3) + s * F(1, 2)), geom.poly("hole", tx + s, tx * F(1, 3) + s * F(1, 2)), th])
+        elif self.how == "swapone":  # two congruent components, one of them in common with X: a different region whatever s is
+            X = DisjointShape([geom.poly("u0", tx, tx * F(1, 3)), geom.poly("u1", tx, tx * F(1, 3))])
+            Y = DisjointShape([geom.poly("u2", tx + s, tx * F(1, 3) + s * F(1, 2)), geom.poly("u0", tx, tx * F(1, 3))])
         elif self.how == "reorder":
             Y = _reordered(self.shape, tx + s, tx * F(1, 3) + s * F(1, 2))
         elif self.how == "op":  # built by operators instead of the constructor
@@ -164,7 +167,7 @@ class ShapeEq:
         big = R.zor(s >= F(1, 10**5), -s >= F(1, 10**5))
         obs = [("== / != did not return a bool", Fl if all(t == "bool" for t in out["types"]) else T, {}),
                ("== is not symmetric or != is not its negation", Fl if out["xy"] == out["yx"] and out["ne"] == (not out["xy"]) else T, {})]
-        if self.how == "tinyhole":
+        if self.how in ("tinyhole", "swapone"):
             obs.append(("== is True for different regions", T if (out["xy"] or out["yx"]) else Fl, {}))
         elif out["xy"]:
             obs.append(("== is True for different regions", big, {}))
@@ -188,6 +191,8 @@ class ShapeEq:
         s = xs[1]
         if self.how == "tinyhole":
             return bool(outcome["xy"] or outcome["yx"]), desc + f": a frame and the same frame with an extra tiny hole compare {outcome['xy']} / {outcome['yx']}"
+        if self.how == "swapone":
+            return bool(outcome["xy"] or outcome["yx"]), desc + f": two pairs of congruent squares with only one square in common compare {outcome['xy']} / {outcome['yx']}"
         if s != 0 and abs(s) < F(1, 10**5):
             return False, "band"
         return outcome["xy"] != (s == 0), desc + f": library says {outcome['xy']} (kinds {outcome['kinds']})"
@@ -251,6 +256,8 @@ def _reordered(name, tx, ty):
         return ConnectedShape([geom.poly("hole", tx, ty), geom.poly("big", tx, ty)])
     if name == "two":
         return DisjointShape([geom.poly("far", tx, ty), geom.poly("square", tx, ty)])
+    if name == "three":
+        return DisjointShape([geom.poly("u2", tx, ty), geom.poly("u0", tx, ty), geom.poly("u1", tx, ty)])
     if name == "framedot":
         return DisjointShape([geom.poly("far", tx, ty), ConnectedShape([geom.poly("hole", tx, ty), geom.poly("big", tx, ty)])])
     return geom.make(name, tx, ty)
@@ -261,6 +268,8 @@ def _by_operator(name, tx, ty):
         return geom.poly("big", tx, ty) - geom.poly("hole", tx, ty, rev=True)
     if name == "two":
         return geom.poly("square", tx, ty) | geom.poly("far", tx, ty)
+    if name == "three":
+        return (geom.poly("u1", tx, ty) | geom.poly("u2", tx, ty)) | geom.poly("u0", tx, ty)
     if name == "framedot":
         return (geom.poly("big", tx, ty) - geom.poly("hole", tx, ty, rev=True)) | geom.poly("far", tx, ty)
     return geom.make(name, tx, ty)
@@ -278,7 +287,8 @@ def specs(tier):
             out.append(dict(module=Mo, scenario="CurveEq", params=dict(poly=p, vx=list(vx), vy=list(vy), level=level), time_budget=90 if tier == "quick" else 900))
     for ch in ("q1", "q2", "c1"):
         out.append(dict(module=Mo, scenario="MixedDegreeEq", params=dict(chain=ch)))
-    for s in ["hollow", "two"] + (["framedot", "inv:two", "hollow2"] if tier != "quick" else []):
+    out.append(dict(module=Mo, scenario="ShapeEq", params=dict(shape="three", how="swapone"), time_budget=90 if tier == "quick" else 900))
+    for s in ["hollow", "two", "three"] + (["framedot", "inv:two", "hollow2"] if tier != "quick" else []):
         for how in ("same", "reorder", "op"):
             out.append(dict(module=Mo, scenario="ShapeEq", params=dict(shape=s, how=how), time_budget=90 if tier == "quick" else 900))
     out.append(dict(module=Mo, scenario="ShapeEq", params=dict(shape="hollow", how="tinyhole"), time_budget=90 if tier == "quick" else 900))
